@@ -3,10 +3,13 @@
    [pm_bind ns o] is EvaluateFilter's binding step (obj, the type variable, EVERY navigation field - value or
    null), [pm_eval fv ns f] reads only [ns]; [pm_eval_opt pf o] = the filter on the object alone (bound into an
    empty namespace), which is what the statement means by "the filter is true of the object".
+   Free names of a filter (names EvaluateFilter does not bind) are resolved in an explicit environment: the global
+   constants [G] for the permission filter, filter_vars ++ G for the user's filter; [G] is universally quantified.
+   Companion file Properties_C18_indep.v: independence of the permission filter from the request, the join caches.
    Finding F-C18-a (stale `service` in the shared permission frame) is fixed in /repo (053695b + 17a75cd: the
    namespace is replaced per by-name type iteration and before the filter phase); the model transcribes the
    fixed code and no theorem carries a finding hypothesis any more. *)
-From Icv Require Import Base.Tac Perm.PmModel Perm.PmProofs Perm.PmObs Perm.PmOracleProofs Perm.PmFacts.
+From Icv Require Import Base.Tac Perm.PmModel Perm.PmProofs Perm.PmJoins Perm.PmObs Perm.PmOracleProofs Perm.PmFacts.
 Local Open Scope Z_scope.
 
 (* matcher correctness: Utility::Match's model = the declarative glob relation; case of the text is irrelevant *)
@@ -24,9 +27,9 @@ Theorem C18_has_permission : forall u perm, fst (pm_has_permission u perm) = pm_
 Proof. exact pm_spec_has_correct. Qed.
 Print Assumptions C18_has_permission.
 
-Theorem C18_combined_filter : forall u perm pf o,
-  perm <> [] -> pm_check_permission u perm = Some pf -> pm_eval_opt pf o = PmT ->
-  pm_spec_allow u perm o = true.
+Theorem C18_combined_filter : forall G u perm pf o,
+  perm <> [] -> pm_check_permission u perm = Some pf -> pm_eval_opt G pf o = PmT ->
+  pm_spec_allow G u perm o = true.
 Proof. exact pm_granted_allow. Qed.
 Print Assumptions C18_combined_filter.
 
@@ -40,69 +43,70 @@ Proof. exact pm_frame_depends_on_target_only. Qed.
 Print Assumptions C18_frame_depends_on_target_only.
 
 (* only permitted objects are returned - for all permission lists, queries, inventories, both providers *)
-Theorem C18_only_permitted : forall fast u perm tys q inv objs c,
+Theorem C18_only_permitted : forall G fast u perm tys q inv objs c,
   perm <> [] ->
-  pm_filter_targets fast u perm tys q inv = (c, PmOk objs) ->
-  forall o, In o objs -> In o inv /\ pm_spec_allow u perm o = true.
+  pm_filter_targets G fast u perm tys q inv = (c, PmOk objs) ->
+  forall o, In o objs -> In o inv /\ pm_spec_allow G u perm o = true.
 Proof. exact pm_only_permitted. Qed.
 Print Assumptions C18_only_permitted.
 
 (* the same in terms of the code's combined filter: it is true of every returned object, evaluated on that
    object alone (no variable left over from another target) *)
-Theorem C18_only_permitted_filter : forall fast u perm tys q inv objs c,
-  pm_filter_targets fast u perm tys q inv = (c, PmOk objs) ->
-  exists pf, pm_check_permission u perm = Some pf /\ forall o, In o objs -> In o inv /\ pm_eval_opt pf o = PmT.
+Theorem C18_only_permitted_filter : forall G fast u perm tys q inv objs c,
+  pm_filter_targets G fast u perm tys q inv = (c, PmOk objs) ->
+  exists pf, pm_check_permission u perm = Some pf /\ forall o, In o objs -> In o inv /\ pm_eval_opt G pf o = PmT.
 Proof. exact pm_only_permitted_clean. Qed.
 Print Assumptions C18_only_permitted_filter.
 
 (* no matching entry: the call fails with "Missing permission" and no object was consulted *)
-Theorem C18_reject_first : forall fast u perm tys q inv,
+Theorem C18_reject_first : forall G fast u perm tys q inv,
   perm <> [] -> (forall e, In e u -> pm_match (pm_lower (pe_perm e)) (pm_lower perm) = false) ->
-  pm_filter_targets fast u perm tys q inv = (false, PmErr PmErrPerm).
+  pm_filter_targets G fast u perm tys q inv = (false, PmErr PmErrPerm).
 Proof. exact pm_reject_first. Qed.
 Print Assumptions C18_reject_first.
 
 (* an object addressed by name (single or in a list) that the permission filter does not accept: error, no objects *)
-Theorem C18_by_name_denied : forall fast u perm tys q inv t n o pf,
+Theorem C18_by_name_denied : forall G fast u perm tys q inv t n o pf,
   In t tys -> pm_names q t n -> pm_lookup inv t n = Some o ->
-  pm_check_permission u perm = Some pf -> pm_eval_opt pf o <> PmT ->
-  exists c e, pm_filter_targets fast u perm tys q inv = (c, PmErr e).
+  pm_check_permission u perm = Some pf -> pm_eval_opt G pf o <> PmT ->
+  exists c e, pm_filter_targets G fast u perm tys q inv = (c, PmErr e).
 Proof. exact pm_by_name_denied. Qed.
 Print Assumptions C18_by_name_denied.
 
 (* by name, by one-element list, by type (+ user filter), by the fast path for hosts and for services
    (host.name == H && service.name == S in either order): the same objects for the same user *)
-Theorem C18_paths_agree : forall u perm inv o pf,
+Theorem C18_paths_agree : forall G u perm inv o pf,
   pm_check_permission u perm = Some pf -> pm_lookup inv (po_type o) (po_name o) = Some o ->
-  (forall fast, snd (pm_filter_targets fast u perm [po_type o] (pm_q_by_name (po_type o) (po_name o)) inv) = PmOk [o]
-                <-> pm_eval_opt pf o = PmT) /\
-  (forall fast, snd (pm_filter_targets fast u perm [po_type o] (pm_q_by_list (po_type o) (po_name o)) inv) = PmOk [o]
-                <-> pm_eval_opt pf o = PmT) /\
-  (forall uf fv objs, snd (pm_filter_targets false u perm [po_type o] (pm_q_by_type (po_type o) uf fv) inv) = PmOk objs ->
-                (In o objs <-> pm_eval_opt pf o = PmT /\ pm_ueval fv uf o = PmT)) /\
+  (forall fast, snd (pm_filter_targets G fast u perm [po_type o] (pm_q_by_name (po_type o) (po_name o)) inv) = PmOk [o]
+                <-> pm_eval_opt G pf o = PmT) /\
+  (forall fast, snd (pm_filter_targets G fast u perm [po_type o] (pm_q_by_list (po_type o) (po_name o)) inv) = PmOk [o]
+                <-> pm_eval_opt G pf o = PmT) /\
+  (forall uf fv objs, snd (pm_filter_targets G false u perm [po_type o] (pm_q_by_type (po_type o) uf fv) inv) = PmOk objs ->
+                (In o objs <-> pm_eval_opt G pf o = PmT /\ pm_ueval G fv uf o = PmT)) /\
   (forall objs, po_type o = PmHost ->
-                snd (pm_filter_targets true u perm [po_type o] (pm_q_by_type (po_type o) (Some (PmFName PmScHost (po_name o))) []) inv) = PmOk objs ->
-                (In o objs <-> pm_eval_opt pf o = PmT)) /\
+                snd (pm_filter_targets G true u perm [po_type o] (pm_q_by_type (po_type o) (Some (PmFName PmScHost (po_name o))) []) inv) = PmOk objs ->
+                (In o objs <-> pm_eval_opt G pf o = PmT)) /\
   (forall objs (swap : bool), po_type o = PmService -> po_name o = po_host o ++ [33] ++ po_short o ->
-                snd (pm_filter_targets true u perm [po_type o]
+                snd (pm_filter_targets G true u perm [po_type o]
                        (pm_q_by_type (po_type o)
                           (Some (if swap then PmFAnd (PmFName PmScService (po_short o)) (PmFName PmScHost (po_host o))
                                  else PmFAnd (PmFName PmScHost (po_host o)) (PmFName PmScService (po_short o)))) []) inv) = PmOk objs ->
-                (In o objs <-> pm_eval_opt pf o = PmT)).
+                (In o objs <-> pm_eval_opt G pf o = PmT)).
 Proof. exact pm_paths_agree. Qed.
 Print Assumptions C18_paths_agree.
 
-(* joins: a joined object is serialised only if objects/query/<its type> is granted and allows it *)
-Theorem C18_join_only_permitted : forall u o,
-  pm_join_visible u o = true -> pm_spec_allow u (pm_query_perm (po_type o)) o = true.
+(* joins: a joined object (a host, or a CheckCommand / TimePeriod / EventCommand / Endpoint the fragment knows by type
+   and name) is serialised only if objects/query/<its type> is granted and the filter of THAT permission allows it;
+   the loop with its two per-request caches is in Properties_C18_indep.v *)
+Theorem C18_join_only_permitted : forall G u j, pm_join_visible G u j = true -> pm_spec_allow_j G u j = true.
 Proof. exact pm_join_only_permitted. Qed.
 Print Assumptions C18_join_only_permitted.
 
 (* the executable oracle run over implementation observations never fires on what the model produces *)
-Theorem C18_oracle_accepts_model : forall prov fast u perm tys q inv,
+Theorem C18_oracle_accepts_model : forall G prov fast u perm tys q inv,
   perm <> [] -> pm_inv_wf inv ->
-  pm_oracle_q u perm tys q inv
-    (pm_observe prov (fst (pm_has_permission u perm)) (pm_filter_targets fast u perm tys q inv)) = true.
+  pm_oracle_q G u perm tys q inv
+    (pm_observe prov (fst (pm_has_permission u perm)) (pm_filter_targets G fast u perm tys q inv)) = true.
 Proof. exact pm_oracle_accepts_model. Qed.
 Print Assumptions C18_oracle_accepts_model.
 
@@ -114,7 +118,12 @@ Theorem C18_source_facts :
   pm_prefix_ok Facts_c18.f_pm_actions_prefix pm_actions_prefix /\ pm_guard_ok Facts_c18.f_pm_actions_guard /\
   pm_prefix_ok Facts_c18.f_pm_join_prefix pm_query_prefix /\ pm_guard_ok Facts_c18.f_pm_join_guard /\
   pm_navs_ok Facts_c18.f_pm_nav_host PmHost /\ pm_navs_ok Facts_c18.f_pm_nav_service PmService /\
-  pm_guard_ok Facts_c18.f_pm_bind_guard.
+  pm_guard_ok Facts_c18.f_pm_bind_guard /\
+  (* the permission frame's namespace is a `new Namespace()` only EvaluateFilter writes to; filter_vars go to the user's frame *)
+  pm_guard_ok Facts_c18.f_pm_perm_ns_private /\
+  (* the join caches are keyed by object identity resp. type identity; joinAttrs is an ordered set *)
+  pm_guard_ok Facts_c18.f_pm_join_cache_by_identity /\ pm_guard_ok Facts_c18.f_pm_join_type_cache_by_identity /\
+  pm_guard_ok Facts_c18.f_pm_join_attrs_sorted.
 Proof. exact pm_source_facts. Qed.
 Print Assumptions C18_source_facts.
 
@@ -128,7 +137,7 @@ Example C18_nonvacuous :
              {| pe_perm := [79;66;74;69;67;84;83;47;42]; pe_filter := Some (PmFName (PmScNav PmNCommandEndpoint) [101]) |} ] in
   let perm := pm_query_perm PmHost in
   pm_check_permission u perm = Some (Some (PmFName (PmScNav PmNCommandEndpoint) [101])) /\
-  pm_filter_targets true u perm [PmHost] (pm_q_by_name PmHost [104]) [h; w] = (true, PmOk [h]) /\
-  pm_filter_targets true u perm [PmHost] (pm_q_by_name PmHost [119]) [h; w] = (true, PmErr PmErrDenied) /\
-  pm_filter_targets true u perm [PmHost] (pm_q_by_type PmHost None []) [h; w] = (true, PmOk [h]).
+  pm_filter_targets [] true u perm [PmHost] (pm_q_by_name PmHost [104]) [h; w] = (true, PmOk [h]) /\
+  pm_filter_targets [] true u perm [PmHost] (pm_q_by_name PmHost [119]) [h; w] = (true, PmErr PmErrDenied) /\
+  pm_filter_targets [] true u perm [PmHost] (pm_q_by_type PmHost None []) [h; w] = (true, PmOk [h]).
 Proof. vm_compute. repeat split. Qed.
